@@ -1,14 +1,17 @@
 import SeqIoModel.Proofs.FastaStream
 import SeqIoModel.Proofs.FastqStream
+import SeqIoModel.Proofs.FastaHistory
+import SeqIoModel.Proofs.FastqHistorySeek
 /-!
 # C04 – all ways of reading one reader deliver the same records exactly once
 
-Proved in this file: single-record reads and owned-record iterators (`RecordsIter::next` is
-`Reader::next` followed by `to_owned_record`, whose content is `head` and the concatenated lines
-that `Obs.record` already carries) deliver every record of S exactly once, in order, then end of
-input.  Histories mixing record-set reads, exact-count reads and seeks are theorems of
-`Proofs/*History*.lean` when present (see evidence); otherwise they are covered by the correspondence
-run and the abstract-reader oracle (acceptor A) only.
+`Model/History.lean` defines the history-level machine (`Hist.stepM`: reader plus three live record
+sets, operations next / owned / set j (plain or exact n) / dump j / pos / seekRec i) and the abstract
+reader A (`Hist.acceptA`: a cursor into S's records; a plain set read may deliver any m ≥ 1 records,
+an exact read exactly min n remaining, end of input only when nothing is left, sets are snapshots).
+FASTA: EVERY finite history on every input, capacity, growing policy and chunking is accepted by A.
+FASTQ: single and owned reads here; histories in `Proofs/FastqHistory*.lean` when present (see the
+evidence), otherwise correspondence run + acceptor oracle.
 -/
 
 namespace SeqIo.Thm.C04
@@ -25,5 +28,32 @@ theorem fastq_single_reads_exactly_once (inp : List UInt8) (cap : Nat) (hcap : 3
     Fastq.runNexts k (Fastq.mkReader inp cap pol script chunk) =
       (Fastq.specObs inp ++ List.replicate k Fastq.Obs.none).take k :=
   Fastq.fastq_next_stream_polGrows inp cap hcap pol hpol script hs chunk k
+
+/-- FASTA: every history of single reads, owned reads, record-set reads, exact-count reads, set
+iteration, position queries and seeks to record positions is accepted by the abstract reader -/
+theorem fasta_all_histories_accepted (inp : List UInt8) (cap : Nat) (hcap : 3 ≤ cap) (pol : Pol)
+    (hpol : Fasta.PolGrows pol) (script : List ReadEv) (hs : NoFail script) (chunk : Nat)
+    (ops : List Fasta.Hist.Op) :
+    Fasta.Hist.runA (Fasta.Hist.items inp) Fasta.Hist.aInit ops
+      (Fasta.Hist.runM (Fasta.Hist.mkMSt inp cap pol script chunk) ops) = true :=
+  Fasta.Hist.fasta_history_accepted inp cap hcap pol hpol script hs chunk ops
+
+/-- … in particular with the crate's default policy -/
+theorem fasta_all_histories_accepted_std (inp : List UInt8) (cap : Nat) (hcap : 3 ≤ cap)
+    (script : List ReadEv) (hs : NoFail script) (chunk : Nat) (ops : List Fasta.Hist.Op) :
+    Fasta.Hist.runA (Fasta.Hist.items inp) Fasta.Hist.aInit ops
+      (Fasta.Hist.runM (Fasta.Hist.mkMSt inp cap PolDesc.std.toPol script chunk) ops) = true :=
+  Fasta.Hist.fasta_history_accepted_std inp cap hcap script hs chunk ops
+
+/-- FASTQ: every history (operations as the harness generates them: set indices 0-2, exact counts ≥ 1)
+of single reads, owned reads, record-set reads, exact-count reads, set iteration, position queries and
+seeks to the position of any item – a record or the invalid group – is accepted by the FASTQ abstract
+reader (`Model/HistoryFq.lean`: if an invalid record lies ahead, set reads deliver only records that
+precede it and then report its error; afterwards end of input) -/
+theorem fastq_all_histories_accepted (inp : List UInt8) (cap : Nat) (hcap : 3 ≤ cap) (pol : Pol)
+    (hpol : Fastq.PolGrows pol) (script : List ReadEv) (hs : NoFail script) (chunk : Nat)
+    (ops : List Fastq.Hist.Op) (hops : ∀ op ∈ ops, op.wf = true) :
+    Fastq.Hist.accepted inp (Fastq.Hist.mkM inp cap pol script chunk) ops = true :=
+  Fastq.fastq_history_accepted inp cap hcap pol hpol script hs chunk ops hops
 
 end SeqIo.Thm.C04
